@@ -106,7 +106,13 @@ func VerifC18Expr() {
 	dv := nd.Bytes(1)
 	nd.Assume(dv[0] >= '1' && dv[0] <= '9')
 	cfg := &vCfg{keys: []string{"k"}, vals: []any{dv}}
-	tag := pre + "#{" + e1 + "${k}" + e2 + "}" + post
+	ph := "${k}"
+	if nd.Bool() { // the placeholder's key is itself given through a placeholder
+		cfg = &vCfg{keys: []string{"j", "k1"}, vals: []any{"1", dv}}
+		ph = "${k${j}}"
+		nd.Cover("placeholder nested in a placeholder inside the expression")
+	}
+	tag := pre + "#{" + e1 + ph + e2 + "}" + post
 	reg := support.DefaultDefinitionRegistry()
 	va := NewValueAwarePostProcessors().(*valueAwarePostProcessors)
 	h := &vExprHolder{}
@@ -263,4 +269,66 @@ func VerifC18ExprNumbers() {
 	_, err := va.PostProcessProperties(props, h, "h")
 	nd.Assert(err == nil, "C18: binding the expression's result succeeds")
 	nd.Cover("numeric expression evaluated")
+}
+
+type vEndpoint struct {
+	Host string
+	Port int
+}
+
+type vClientCfg struct {
+	Name     string    `validate:"required"`
+	Endpoint vEndpoint `validate:"required"`
+	Alias    string    `validate:"omitempty,min=2"`
+}
+
+type vStructHolder struct {
+	C vClientCfg  `value:"x"`
+	P *vClientCfg `value:"x"`
+}
+
+// C18 (c') validation of a bound struct (by value and through a pointer): start-up fails exactly
+// when the real validator, configured as documented (required applies to struct-typed fields too),
+// rejects the bound value.  Binding itself is not the subject: the bound value is put in place directly.
+func VerifC18ValidateStruct() {
+	pick := func(opts ...string) string { return opts[nd.Choose(len(opts))] }
+	v := vClientCfg{Name: pick("", "n"), Alias: pick("", "a", "ab")}
+	if nd.Bool() {
+		v.Endpoint = vEndpoint{Host: pick("", "h"), Port: nd.Choose(2)}
+	}
+	reg := support.DefaultDefinitionRegistry()
+	va := NewValueAwarePostProcessors().(*valueAwarePostProcessors)
+	h := &vStructHolder{}
+	nd.Assert(va.PostProcessDefinitionRegistry(reg, h, "h") == nil, "scan ok")
+	meta := reg.GetMetaByName("h")
+	byPtr := nd.Bool()
+	fld := meta.Fields[0]
+	h.C = v
+	if byPtr {
+		fld = meta.Fields[1]
+		h.P = &v
+	}
+	hasValidate := nd.Bool()
+	tag := "x"
+	if hasValidate {
+		tag += ",validate"
+	}
+	prop := component_definition.NewProperty(fld, component_definition.PropertyTypeConfiguration, "value", tag)
+	vd := NewValidateAwarePostProcessors()
+	_, err := vd.PostProcessProperties([]*component_definition.Property{prop}, h, "h")
+	verdict := validator.New(validator.WithRequiredStructEnabled()).Struct(v)
+	if !hasValidate {
+		nd.Assert(err == nil, "C18: a field without a validate argument never fails validation")
+		return
+	}
+	if verdict != nil {
+		nd.Cover("struct constraint violated")
+	} else {
+		nd.Cover("struct constraint satisfied")
+	}
+	if v.Name != "" && v.Endpoint == (vEndpoint{}) {
+		nd.Cover("only the required nested struct is empty")
+		nd.Assert(verdict != nil, "oracle: required applies to a struct-typed field")
+	}
+	nd.Assert((err != nil) == (verdict != nil), "C18: start-up fails exactly when the bound struct violates the stated constraints")
 }
